@@ -635,8 +635,13 @@ func (c *Component) handlePADR(pkt *dataplane.ParsedPacket) error {
 		return nil
 	}
 
-	sessionID := c.allocateSessionID()
+	// sidMu is held from the allocation until the session is in sidIndex. An id
+	// that has been handed out but is not indexed yet looks free to a concurrent
+	// PADR; when it is the last free id both handlers would answer with it.
+	c.sidMu.Lock()
+	sessionID := c.allocateSessionIDLocked()
 	if sessionID == 0 {
+		c.sidMu.Unlock()
 		// RFC 2516 section 5.4: 0x0000 is reserved for discovery; never create a
 		// session with it. The client retries PADI/PADR once ids are free again.
 		return fmt.Errorf("PADR from %s dropped: no free PPPoE session id", pkt.MAC.String())
@@ -670,6 +675,7 @@ func (c *Component) handlePADR(pkt *dataplane.ParsedPacket) error {
 	c.sessionMu.Lock()
 	c.addToIndexes(sess)
 	c.sessionMu.Unlock()
+	c.sidMu.Unlock()
 
 	c.logger.Debug("Created PPPoE session",
 		"session_id", sess.SessionID,
@@ -1076,10 +1082,9 @@ func (c *Component) handleAAAResponse(event events.Event) {
 	}
 }
 
-func (c *Component) allocateSessionID() uint16 {
-	c.sidMu.Lock()
-	defer c.sidMu.Unlock()
-
+// allocateSessionIDLocked returns a free PPPoE session id, or 0 when there is
+// none. The caller holds c.sidMu and keeps it until the id is in sidIndex.
+func (c *Component) allocateSessionIDLocked() uint16 {
 	// nextSessionID is 0 after restoring a session with id 0xFFFF (the restore
 	// paths compute id+1 in uint16). 0 is never a valid session id.
 	if c.nextSessionID == 0 {
